@@ -8,7 +8,8 @@ rows = []
 tot_first = {0: 0, 1: 0, 2: 0}
 tot_now = {0: 0, 1: 0, 2: 0}
 for d in sorted(glob.glob("/verif/benign/*")):
-    if ROUND and d[-1] not in ROUND:
+    suf = os.path.basename(d).split("-")[-1]
+    if ROUND and not (suf[0] == "r" and suf[1:] in ROUND):
         continue
     mp = os.path.join(d, "meta.json")
     if not os.path.isfile(mp):
